@@ -94,6 +94,42 @@ theorem refuses (lbl : List (List UInt8)) (c : Cart) (h : ¬ codeFits c.code c.v
   obtain ⟨e, he⟩ := getBytes_error c.code c.version h
   exact ⟨e, by simp [toPixels, he, bind, Except.bind]⟩
 
+/-- **C04.written_iff**: the writer produces an image exactly when the code fits (in the sense of `codeFits_iff`: some form of
+the format can hold it) and the version is a byte — it neither refuses a cart that fits nor writes one that does not. -/
+theorem written_iff (lbl : List (List UInt8)) (c : Cart) :
+    (∃ rows, toPixels lbl c = .ok rows) ↔ codeFits c.code c.version ∧ c.version < 256 := by
+  constructor
+  · rintro ⟨rows, h⟩
+    have hfit : codeFits c.code c.version := by
+      false_or_by_contra
+      rename_i hn
+      obtain ⟨e, he⟩ := refuses lbl c hn
+      rw [he] at h; cases h
+    refine ⟨hfit, ?_⟩
+    false_or_by_contra
+    rename_i hv
+    unfold codeFits at hfit
+    have hcb : ∃ cb, getBytesFromCode c.code c.version = .ok cb := by
+      by_cases hc : useCompressed c.code c.version = true
+      · rw [if_pos hc] at hfit
+        exact ⟨_, getBytes_compressed c.code c.version hc hfit.1 hfit.2⟩
+      · rw [if_neg hc] at hfit
+        exact ⟨_, getBytes_raw c.code c.version hc hfit.1 hfit.2⟩
+    obtain ⟨cb, hcb⟩ := hcb
+    have hgt : c.version > 255 := by omega
+    simp [toPixels, hcb, bind, Except.bind, hgt] at h
+  · rintro ⟨hfit, hv⟩
+    unfold codeFits at hfit
+    have hcb : ∃ cb, getBytesFromCode c.code c.version = .ok cb := by
+      by_cases hc : useCompressed c.code c.version = true
+      · rw [if_pos hc] at hfit
+        exact ⟨_, getBytes_compressed c.code c.version hc hfit.1 hfit.2⟩
+      · rw [if_neg hc] at hfit
+        exact ⟨_, getBytes_raw c.code c.version hc hfit.1 hfit.2⟩
+    obtain ⟨cb, hcb⟩ := hcb
+    exact ⟨encRows lbl (picodata c cb), by
+      simp [toPixels, hcb, bind, Except.bind, Nat.not_lt.mpr (Nat.le_of_lt_succ hv), pure, Except.pure]⟩
+
 /-- **C04.code_area_compressed**: code stored compressed reads back exactly (CR -> space), under C05's guard (the version is
 ≥ 1 because the form was chosen). -/
 theorem code_area_compressed (code : Bytes) (v : Nat) (hc : storedCompressed code v)
